@@ -1,0 +1,36 @@
+//go:build verif
+
+package tan
+
+// Verification hook for property C09 (add-only, compiled only with -tags verif).
+
+// VerifC09Preopen opens (or returns the already open) tan db used by the
+// specified raft node exactly like collection.getDB does, but with the given
+// MaxLogFileSize so that a harness can force log file rollover with a small
+// amount of data. A zero maxLogFileSize selects the default.
+func (l *LogDB) VerifC09Preopen(shardID uint64,
+	replicaID uint64, maxLogFileSize int64) error {
+	l.mu.Lock()
+	defer l.mu.Unlock()
+	c := &l.collection
+	if _, ok := c.keeper.get(shardID, replicaID); ok {
+		return nil
+	}
+	name := c.keeper.name(shardID, replicaID)
+	dbdir := c.fs.PathJoin(c.dirname, name)
+	if err := c.prepareDir(dbdir); err != nil {
+		return err
+	}
+	db, err := open(dbdir, dbdir,
+		&Options{FS: c.fs, MaxLogFileSize: maxLogFileSize})
+	if err != nil {
+		return err
+	}
+	c.keeper.set(shardID, replicaID, db)
+	return nil
+}
+
+// VerifC09IndexBlockSize returns the indexBlockSize constant.
+func VerifC09IndexBlockSize() int64 {
+	return indexBlockSize
+}
